@@ -1524,6 +1524,50 @@ def gen_C12(rng, tier, dist):
         for d in [b"", bytes(3), key_frame(rng, codec), delta_frame(rng, codec), SC3, SC4 + SC3]:
             for k in (0, 1):
                 out.append("X validate_video_frame %s %s %d" % (codec, hx(d), k))
+    # validate_muxing_config: every presence pattern of the optional fields, with and without sample frames
+    def opt(v):
+        return "~" if v is None else str(v)
+    r9 = random.Random(99)
+    for vc in [None, "h264", "vp9"]:
+        for dims in [(None, None), (640, None), (640, 480), (100, 100), (0, 0)]:
+            for fps in [None, 30.0, 0.0, float("nan")]:
+                for ac in [None, "aac-lc", "opus", "cnone"]:
+                    for sr, ch in [(None, None), (48000, None), (48000, 2), (0, 9)]:
+                        vf = r9.choice([None, None, key_frame(r9, vc or "h264"), delta_frame(r9, vc or "h264"), b""])
+                        af = r9.choice([None, None, adts(r9), opus_pkt(r9, 3), b"", b"\x01"])
+                        out.append("X validate_muxing %s %s %s %s %s %d %s %s %s %s" % (
+                            opt(vc), opt(dims[0]), opt(dims[1]), "~" if fps is None else f64bits(fps),
+                            "~" if vf is None else hx(vf), r9.randrange(2), opt(ac), opt(sr), opt(ch), "~" if af is None else hx(af)))
+                        dist["validate_muxing"] += 1
+    # new_with_fragment: every presence pattern of the parameters the codec needs
+    for codec, need in (("h264", ["sps:6742001e", "pps:68ce3880"]), ("h265", ["vps:40010c", "sps:4201", "pps:4401"]),
+                        ("av1", ["av1:0a0b00000024cf7f"]), ("vp9", ["vp9:64.64.0.8.2.2.2.10.0"])):
+        for mask in range(1 << len(need)):
+            ops = ["v:%s:640:480" % codec] + [need[i] for i in range(len(need)) if mask >> i & 1]
+            out.append(fcase("via=bops bops=" + ",".join(ops), ["finit", "fw 0 0 aabb 1", "fflush"]))
+    # plain data builders, the wall-clock convenience, Display/Debug of every error variant
+    for w, h in [(0, 0), (1920, 1080), (2 ** 32 - 1, 1)]:
+        for ac in ["~", "aac-lc", "opus", "cnone"]:
+            for fast in (0, 1):
+                out.append("X muxer_config %d %d %s %s %d %d %d %d" % (w, h, f64bits(r9.choice(f64s)), ac, r9.choice([0, 48000, 2 ** 32 - 1]), r9.choice([0, 2, 65535]), fast, r9.randrange(2)))
+    out.append("X metadata_now")
+    for a, b2 in [(b"", b""), (b"\x67\x42", b"\x68"), (bytes(70000), b"\x00"), (bytes(range(0x40, 0x60)), b"\x44\x01"), (b"\x42\x01\x01\xff", b"")]:
+        out.append("X plain_ctors %s %s" % (hx(a), hx(b2)))
+    for f in f64s + [1e-310, 2.0 ** 63, -2.0 ** 64]:
+        out.append("X error_display %s" % f64bits(f))
+    # VP9 key frames of profile 2/3 cut right behind the frame header; an AV1 uvlc() of 33 leading zeros
+    for b3 in (0x80, 0xC0, 0x40, 0x00, 0xA0, 0x90):
+        for n in range(3, 12):
+            f = bytes([0x49, 0x83, 0x42, b3]) + bytes([0x80, 0x10, 0x10, 0x12, 0, 0, 0, 0])
+            for fn in ("extract_vp9", "is_vp9_key", "is_valid_vp9"):
+                out.append("X %s %s" % (fn, hx(f[:n])))
+    for lz in (31, 32, 33, 40):
+        w = BitW(); w.f(3, 0); w.f(1, 0); w.f(1, 0); w.f(1, 1); w.f(32, 1); w.f(32, 30); w.f(1, 1); w.f(lz, 0); w.f(1, 1); w.f(min(lz, 32), 0)
+        w.f(1, 0); w.f(1, 0); w.f(5, 0); w.f(12, 0); w.f(5, 4); w.f(4, 9); w.f(4, 9); w.f(10, 63); w.f(10, 63); w.f(40, 0)
+        pl = w.bytes()
+        obu = bytes([0x0A]) + leb128(len(pl)) + pl
+        out.append("X extract_av1 %s" % hx(obu))
+        out.append(pcase(cfg_str(codec="av1"), ["wv %s %s 1" % (f64bits(0.0), hx(bytes([0x12, 0x00]) + obu + bytes([0x32, 0x02, 0x10, 0x00]))), "fins"]))
     for sname in ["h264", "H.264", "AVC", "hevc", "av1", "VP9", "", "x", "h.265", "\u00e9"]:
         out.append("X vcodec_str %s" % hx(sname.encode()))
     for sname in ["aac", "AAC-LC", "aac-main", "aac-hev2", "opus", "none", "", "mp3"]:
@@ -1554,6 +1598,10 @@ def gen_C12(rng, tier, dist):
             cfg = frag_cfg(rng, dist)
         if rng.random() < 0.15:
             cfg = "w=640 h=480 via=builder codec=%s" % rng.choice(VCODECS)      # missing parameter sets
+        elif rng.random() < 0.1:
+            cfg = "via=default"                                                  # FragmentConfig::default()
+        elif rng.random() < 0.15:
+            cfg = "via=bops bops=" + random_bops(rng, dist)[0]                   # arbitrary builder calls, then new_with_fragment
         ops = []
         dts = rng.choice([0, 2 ** 32, 2 ** 63, 2 ** 64 - 10])
         for _ in range(rng.randrange(1, 12)):
@@ -1627,6 +1675,9 @@ def gen_C17(rng, tier, dist):
     # fragmented muxer: same op sequence, direct vs builder construction does not matter here; just replay
     for _ in range(100 if tier == "quick" else 5000):
         out.append(fcase(frag_cfg(rng, dist), frag_ops(rng, dist, maxlen=25)))
+    for _ in range(60 if tier == "quick" else 3000):
+        cfg = "via=default" if rng.random() < 0.2 else "via=bops bops=" + random_bops(rng, dist)[0]
+        out.append(fcase(cfg, frag_ops(rng, dist, maxlen=12)))
     return out
 
 
